@@ -114,14 +114,34 @@ def attempt(chk, tier, ex, leak, nm, jobs, tag):
     # schedules: executed call counts = what the comb model / extracted chains prescribe
     fc, sc_ = ex["field_chain"], ex["scalar_chain"]
     pre = "github.com/bilibili/smgo/sm2/internal"
-    sched = {
-        "basemult": [dict(sym=pre + ".(*SM2Point).Double", n=13), dict(sym=pre + ".(*SM2Point).Add", n=14 * 3 - 1 + 1),
-                     dict(sym=pre + ".(*SM2Point).multiSelectConditioned", n=14 * 3 + 1)],
+    # the comb parameters come from the dispatch in the CURRENT source (ScalarBaseMult -> scalarBaseMult_..._W_S_I):
+    # switching to another of the library's schemes is not a violation, its schedule is simply a different one
+    import re as _re
+    comb = None
+    try:
+        src = open(os.path.join(core.REPO, "sm2", "internal", "sm2_curve.go")).read()
+        body = src[src.index("func ScalarBaseMult("):]
+        body = body[:body.index("\n}")]
+        live = [l for l in body.splitlines() if not l.strip().startswith("//")]
+        m = _re.search(r"return scalarBaseMult_SkipBitExtraction_(\d+)_(\d+)_(\d+)\(", "\n".join(live))
+        if m:
+            comb = tuple(int(x) for x in m.groups())
+    except (OSError, ValueError):
+        comb = None
+    sched = {}
+    if comb:
+        w_, s_, it_ = comb
+        rem_ = 1 if 256 - w_ * s_ * it_ > 0 else 0
+        sched["basemult"] = [dict(sym=pre + ".(*SM2Point).Double", n=it_ - 1), dict(sym=pre + ".(*SM2Point).Add", n=it_ * s_ - 1 + rem_),
+                             dict(sym=pre + ".(*SM2Point).multiSelectConditioned", n=it_ * s_ + rem_)]
+    else:
+        chk.notes.append("comb parameters not readable from ScalarBaseMult: no schedule prescribed for basemult")
+    sched.update({
         "pinvert": [dict(sym=pre + "/fiat.sm2Square", n=fc.get("declared_squares", -1)),
                     dict(sym=pre + "/fiat.sm2Mul", n=fc.get("declared_multiplies", -1))],
         "ninvert": [dict(sym=pre + "/fiat.sm2ScalarSquare", n=sc_.get("declared_squares", -1)),
                     dict(sym=pre + "/fiat.sm2ScalarMul", n=sc_.get("declared_multiplies", -1))],
-    }
+    })
     # the signing entry point inverts 1+d by the fixed exponentiation, once (README: "inversion by a fixed exponentiation
     # instead of the Euclidean algorithm"): a variable-time modular inverse from math/big in its place would leave the
     # scoped traces equal across keys, so the use of the chain itself is part of the schedule
@@ -133,6 +153,15 @@ def attempt(chk, tier, ex, leak, nm, jobs, tag):
                         dict(sym=pre + "/fiat.sm2Square", n=2 * fc.get("declared_squares", -1))]
     # an inversion routine that could not be read as an addition chain has no prescribed schedule
     sched = {k: v for k, v in sched.items() if all(e["n"] >= 0 for e in v)}
+    # a prescribed count applies only to a symbol that exists in the binary: a renamed or inlined function is not a
+    # finding (the traces still have to be equal across secrets)
+    present = set(l.split()[-1] for l in open(nm) if l.strip())
+    for k in list(sched):
+        kept = [e for e in sched[k] if e["sym"] in present]
+        if len(kept) != len(sched[k]):
+            chk.notes.append("schedule of %s: symbol(s) not in the binary, entries dropped: %s" % (
+                k, [e["sym"] for e in sched[k] if e["sym"] not in present]))
+        sched[k] = kept
     for ji, (prim, mode, pub, secrets, limit) in enumerate(jobs):
         if prim in sched:
             g.one("schedule_" + prim, "leak.schedule", prim=prim, records=res[(ji, 0)]["records"], expect=sched[prim])
